@@ -305,6 +305,25 @@ def round (wf : Wf) (k : Option Nat) (sorted : List NodeId) (st : St) (moves : L
     if !st.futures.isEmpty && st1.futures.length == st.futures.length then .bad else
     afterPoll wf k sorted (doPoll wf k sorted st1)
 
+/-! The loop with the dispatch rule BEFORE the D11 repair, kept as documentation (`C16_old_rule_violates`). -/
+
+def afterPollOld (wf : Wf) (k : Option Nat) (sorted : List NodeId) (st : St) : Step :=
+  if !st.tasks.isEmpty || !st.futures.isEmpty then .cont (dispatchOld st) else
+  let a := anyNotDone st.w st.ns wf.g.nodes
+  let st1 := { st with ns := a.2 }
+  if !a.1 then .done (finish wf st1) st1 else
+  match stallLoop wf k sorted 11 st1 with
+  | none => .done (if !st1.errors.isEmpty then .failed st1.errors else .stall) st1
+  | some st2 => .cont (dispatchOld st2)
+
+def roundOld (wf : Wf) (k : Option Nat) (sorted : List NodeId) (st : St) (moves : List Ev) : Step :=
+  if st.futures.isEmpty && !moves.isEmpty then .bad else
+  match applyEvs st moves with
+  | none => .bad
+  | some st1 =>
+    if !st.futures.isEmpty && st1.futures.length == st.futures.length then .bad else
+    afterPollOld wf k sorted (doPoll wf k sorted st1)
+
 def runFrom (wf : Wf) (k : Option Nat) (sorted : List NodeId) : Step → List (List Ev) → Step
   | .cont st, mv :: rest => runFrom wf k sorted (round wf k sorted st mv) rest
   | s, _ => s
